@@ -407,6 +407,8 @@ class Interp:
         self.form = form
         self.data = data
         self.d = env.dim
+        # space-time forms: the last coordinate is time; grad/hess/div act on the space coordinates only
+        self.sd = env.dim - 1 if form.get("spacetime") else env.dim
         self.arity = form["arity"]
         comps = form.get("comps") or [None, None]
         spaces = form.get("spaces") or [0, 0]
@@ -525,7 +527,7 @@ class Interp:
         if op == "grad":        # ["grad", e, parametric]
             e = self.ev(node[1], order + 1)
             para = bool(node[2])
-            dims = range(d)
+            dims = range(self.sd)
             f = (lambda j, k: j_dx_param(j, k)) if para else (lambda j, k: env.dx_phys(j, k))
             s = shape_of(e)
             if s == ():
@@ -539,14 +541,27 @@ class Interp:
             if shape_of(e) != ():
                 raise FormError("hess of non-scalar")
             f = (lambda j, k: j_dx_param(j, k)) if para else (lambda j, k: env.dx_phys(j, k))
-            return tuple(tuple(f(f(e, i), k).lower(order) for k in range(d)) for i in range(d))
+            return tuple(tuple(f(f(e, i), k).lower(order) for k in range(self.sd)) for i in range(self.sd))
         if op == "div":
             e = self.ev(node[1], order + 1)
             para = bool(node[2])
-            if shape_of(e) != (d,):
+            if shape_of(e) != (self.sd,):
                 raise FormError("div needs a d-vector")
             f = (lambda j, k: j_dx_param(j, k)) if para else (lambda j, k: env.dx_phys(j, k))
-            return t_sum(f(e[k], k).lower(order) for k in range(d))
+            return t_sum(f(e[k], k).lower(order) for k in range(self.sd))
+        if op == "dt":          # ["dt", e, times]: derivative along the physical time coordinate (the last one)
+            if not self.form.get("spacetime"):
+                raise FormError("time derivative outside a space-time form")
+            times = int(node[2])
+            e = self.ev(node[1], order + times)
+            if len(shape_of(e)) == 2:
+                raise FormError("time derivative of matrix")
+
+            def f(j):
+                for _ in range(times):
+                    j = env.dx_phys(j, d - 1)
+                return j.lower(order)
+            return t_map(f, e)
         if op == "curl":
             e = self.ev(node[1], order + 1)
             if d != 3 or shape_of(e) != (3,):
